@@ -42,6 +42,7 @@ type tryRLocker interface {
 
 type lockInfo struct {
 	waiters    []chan struct{}
+	wwait      int // writers parked on this lock: like sync.RWMutex, a waiting writer holds back new readers
 	holderSite string // site of the most recent successful acquisition
 	waitSites  map[string]int
 }
@@ -138,7 +139,7 @@ func sitePoint(site string) {
 	}
 }
 
-func acquire(k unsafe.Pointer, try func() bool, site string) {
+func acquire(k unsafe.Pointer, try func() bool, site string, read bool) {
 	NLock.Add(1)
 	woken := false
 	for {
@@ -152,7 +153,7 @@ func acquire(k unsafe.Pointer, try func() bool, site string) {
 		woken = true
 		regMu.Lock()
 		li := locks[k]
-		if try() {
+		if !(read && li != nil && li.wwait > 0) && try() {
 			if li == nil {
 				li = &lockInfo{}
 				locks[k] = li
@@ -171,6 +172,9 @@ func acquire(k unsafe.Pointer, try func() bool, site string) {
 			li.waitSites = map[string]int{}
 		}
 		li.waitSites[site]++
+		if !read {
+			li.wwait++
+		}
 		regMu.Unlock()
 		NLockWait.Add(1)
 		if s := cur.Load(); s != nil {
@@ -178,6 +182,9 @@ func acquire(k unsafe.Pointer, try func() bool, site string) {
 		}
 		<-ch
 		regMu.Lock()
+		if !read {
+			li.wwait--
+		}
 		li.waitSites[site]--
 		if li.waitSites[site] <= 0 {
 			delete(li.waitSites, site)
@@ -210,7 +217,7 @@ func Lock(m tryLocker, site string) {
 		m.(plainLocker).Lock()
 		return
 	}
-	acquire(key(m), m.TryLock, site)
+	acquire(key(m), m.TryLock, site, false)
 }
 
 // afterRelease is a schedule point right after a critical section ends (coop mode only): a
@@ -241,7 +248,7 @@ func RLock(m tryRLocker, site string) {
 		m.(plainRLocker).RLock()
 		return
 	}
-	acquire(key(m), m.TryRLock, site)
+	acquire(key(m), m.TryRLock, site, true)
 }
 
 // RUnlock replaces X.RUnlock().
@@ -274,7 +281,7 @@ func OnceDo(o *sync.Once, f func(), site string) {
 		}
 		onceHeld[k] = true
 		return true
-	}, site)
+	}, site, false)
 	defer func() {
 		regMu.Lock()
 		delete(onceHeld, k)
